@@ -169,5 +169,36 @@ def root_contract(k):
     return contract
 
 
+def perfect_power_candidates(nd, k, near=None, limit=48):
+    """positive integers with nd decimal digits that are c^k * 10^j (exact roots), a spread of them plus those nearest to `near`"""
+    if nd <= 0:
+        return []
+    lo, hi = 10 ** (nd - 1), 10 ** nd - 1
+    out = []
+    for j in range(0, nd, 1):
+        if j % k and False:
+            continue
+        a, b = -(-lo // 10 ** j), hi // 10 ** j
+        if a > b:
+            continue
+        ca, cb = _iroot(a - 1, k) + 1 if a > 0 else 0, _iroot(b, k)
+        if ca > cb:
+            continue
+        step = max(1, (cb - ca) // 6)
+        cs = set(range(ca, cb + 1, step)) | {ca, cb}
+        if near:
+            c0 = _iroot(max(near // 10 ** j, 0), k)
+            cs |= {c for c in (c0 - 1, c0, c0 + 1) if ca <= c <= cb}
+        for c in sorted(cs):
+            if c > 0:
+                out.append(c ** k * 10 ** j)
+    seen, res = set(), []
+    for n in out:
+        if n not in seen and lo <= n <= hi:
+            seen.add(n)
+            res.append(n)
+    return res[:limit]
+
+
 SQRT_CONTRACTS = [(re.compile(r'^(?:num_bigint::)?BigUint::sqrt$'), root_contract(2))]
 CBRT_CONTRACTS = [(re.compile(r'^(?:num_bigint::)?BigUint::(nth_root|cbrt)$'), root_contract(3))]
